@@ -289,7 +289,7 @@ func (b *c14b) defAndCall(file, fn, dvar string, indent, level int) {
 		}
 		b.emit(file, fn, "}", indent)
 		var callLine int
-		switch b.r.Intn(9) {
+		switch b.r.Intn(11) {
 		case 3:
 			callLine = b.emit(file, fn, b.v()+" := "+name+"([4]...)", indent)
 		case 4:
@@ -306,6 +306,14 @@ func (b *c14b) defAndCall(file, fn, dvar string, indent, level int) {
 			callLine = b.emit(file, fn, b.v()+" := [1, 2, 3]["+name+"(0)]", indent)
 		case 8:
 			callLine = b.emit(file, fn, b.v()+" := func(q) { return q }("+name+"(8))", indent)
+		case 9:
+			cp := b.v()
+			b.emit(file, fn, cp+" := copy("+name+")", indent)
+			callLine = b.emit(file, fn, b.v()+" := "+cp+"(9)", indent)
+		case 10:
+			arrv := b.v()
+			b.emit(file, fn, arrv+" := {f: "+name+"}", indent)
+			callLine = b.emit(file, fn, b.v()+" := "+arrv+".f(10)", indent)
 		case 0:
 			callLine = b.emit(file, fn, b.v()+" := "+name+"(1) * 2", indent)
 		case 1:
@@ -334,6 +342,11 @@ func genC14(r *plan.Rng) *plan.Plan {
 	b := &c14b{r: r, files: map[string]*[]string{}, meta: meta, budget: r.Range(1, 6)}
 	root := []string{}
 	b.files[rootFile] = &root
+	if r.Chance(1, 2) {
+		// the very first bytes of the file are a failing call expression (offset 0 of the file)
+		id := b.marker(rootFile, "<root>", 1, false)
+		b.emit(rootFile, "<root>", "import(\"mk\").mark("+itoa(id)+", 0)", 0)
+	}
 	b.emit(rootFile, "<root>", "mk := import(\"mk\")", 0)
 	// optional source module with functions called from the root file
 	useMod := r.Chance(1, 2)
@@ -341,12 +354,20 @@ func genC14(r *plan.Rng) *plan.Plan {
 	if useMod {
 		mod := []string{}
 		b.files["lib"] = &mod
+		if r.Chance(1, 2) {
+			id := b.marker("lib", "<lib>", 1, false)
+			b.emit("lib", "<lib>", "import(\"mk\").mark("+itoa(id)+", 0)", 0)
+		}
 		b.emit("lib", "<lib>", "mk := import(\"mk\")", 0)
 		b.emit("lib", "<lib>", "base := 10", 0)
 		if b.r.Chance(1, 2) {
 			// a second source file, imported from the first module
 			sub := []string{}
 			b.files["sub"] = &sub
+			if r.Chance(1, 2) {
+				id := b.marker("sub", "<sub>", 1, false)
+				b.emit("sub", "<sub>", "import(\"mk\").mark("+itoa(id)+", 0)", 0)
+			}
 			b.emit("sub", "<sub>", "mk := import(\"mk\")", 0)
 			b.emit("sub", "<sub>", "pad := \"xxxxxxxxxxxxxxxxxxxxxxxxxxxxxxxxxxxxxxxx\"", 0)
 			b.markerStmt("sub", "<sub>", "0", 0, false)
